@@ -5,6 +5,8 @@ Confirms a seeded change (produced independently in a scratch worktree) and runs
     demonstration (must fail); revert, run the demonstration (must pass);
  2. apply the patch to /repo, run ./check <property> (and the extra ids), undo it straight afterwards.
 Keeps patch, demonstration and meta.json under /verif/seeded/<name>/."""
+import os as _os
+_os.environ['VERIF_EVIDENCE_DIR'] = '/verif/work/evidence_scratch'
 import json, os, shutil, subprocess, sys
 wt, idx, prop, name = sys.argv[1:5]
 extra = sys.argv[5:]
